@@ -13,6 +13,7 @@ import ImmuModel.Merkle.Proofs.AhtComplete
 import ImmuModel.Merkle.Proofs.ConsSound
 import ImmuModel.Merkle.Proofs.HTreeProofs
 import ImmuModel.Merkle.Proofs.Extra
+import ImmuModel.Merkle.Proofs.History
 import ImmuModel.Merkle.MthLemmas
 
 namespace ImmuModel.Props.C08
@@ -96,6 +97,39 @@ theorem aht_rollback (mh : MH D) (xs ys : List Bytes) (t t' : AHT D) (m : Nat)
     (hr : AHT.resetSize t m = some t') :
     AHT.appendAll mh t' ys = AHT.appendAll mh AHT.empty (xs.take m ++ ys) :=
   aht_reset_append mh xs ys t t' m ht hm hr
+
+/-- **Operations that fail leave the tree as it was** (tree level).  A history is any interleaving of
+successful appends, appends that returned an error (a flush / fsync / write / set-offset / read of the
+payload, digest or commit log failed – before or inside the threshold-triggered sync), resets, failed resets
+and failed syncs.  Running it on the tree model from the empty tree succeeds exactly when every reset is
+within the current size, and yields the tree built from scratch over the SURVIVING payloads
+(`AHT.survivors`: failed operations contribute nothing, a reset keeps a prefix). -/
+theorem aht_history_with_failures (mh : MH D) (ops : List AHT.Op) :
+    AHT.run mh AHT.empty ops = (AHT.survivors [] ops).bind (AHT.appendAll mh AHT.empty) :=
+  aht_run_eq_survivors mh ops
+
+/-- … so every historical root after such a history is the reference Merkle root of the surviving payloads;
+`appendAll … ys = some t` makes `inclusion_complete`, `consistency_complete`, `lastInclusion_complete` and
+`aht_rollback` applicable to the resulting tree. -/
+theorem aht_history_roots (mh : MH D) (ops : List AHT.Op) (ys : List Bytes)
+    (hs : AHT.survivors [] ops = some ys) :
+    ∃ t, AHT.run mh AHT.empty ops = some t ∧ AHT.appendAll mh AHT.empty ys = some t ∧ t.payloads = ys ∧
+      ∀ n, 1 ≤ n → n ≤ ys.length → AHT.rootAt t n = .ok (mth mh ((ys.take n).map mh.leafH)) :=
+  ImmuModel.Merkle.aht_history_roots mh ops ys hs
+
+/-- The same at the level the driver executes (`AHTFile`: tree + what the commit log durably holds, with
+the sync threshold): after any history of `append / appendFail / reset / resetFail / sync / syncFail` the
+current tree is the one built from the surviving payloads of the projected history. -/
+theorem ahtfile_history_roots (mh : MH D) (thld : Nat) (fops : List AHTFile.FOp) (f : AHTFile D)
+    (hf : AHTFile.runF mh (AHTFile.new thld) fops = some f) :
+    ∃ ys, AHT.survivors [] (fops.filterMap AHTFile.FOp.toOp) = some ys ∧
+      AHT.appendAll mh AHT.empty ys = some f.cur ∧
+      ∀ n, 1 ≤ n → n ≤ ys.length → AHT.rootAt f.cur n = .ok (mth mh ((ys.take n).map mh.leafH)) :=
+  ImmuModel.Merkle.ahtfile_history_roots mh thld fops f hf
+
+/-- non-vacuity: a history with a failed append, a rollback and a failed sync; two payloads survive -/
+example : AHT.survivors [] [.append [1], .appendFail [2], .append [3], .reset 1, .syncFail,
+    .appendFail [4], .resetFail 0, .append [5]] = some [[1], [5]] := by decide
 
 /-- **Consistency soundness.** If `VerifyConsistency` accepts `(i, j, r1, r2)` and `r2` really
 is the reference root of the `j` leaves `ys`, then `r1` is the reference root of the first `i`
